@@ -15,6 +15,7 @@ ops:
                                       -> ok accept il=<b> off=<n> ts=<n> [tuple=…] prev=… | err <kind> prev=… | panic …
   cli.wrap il= att=ok:<tag>:<inIL>,err:<kind>,…   -> ok <tag> | err <kind>
   cli.badlocal tr= iplen=             -> err addr
+  cli.ntsdesth tr= hist=<parsed>:<port>;…  reach=   -> as cli.ntsdest, for the LAST call of a history of calls on one client
   cli.xchg tr=ip|scion il= nts= dl=<deadline ns|-> filt= (server= | key= ria= rhost= lia= lhost=) ref= prev= rd=[clock readings] tx=none|<ns>.<id> ev=…
                                       -> as cli.exch, followed by rd=<readings consumed>; clock-underrun
                                          (one exchange as a function of the clock readings the code takes: no kernel
@@ -380,6 +381,34 @@ def step (_ : Unit) (toks : List String) : Unit × String := Id.run do
           if reach then return ((), s!"ok sent=x{toHex ip}:{p} res=fail") else return ((), "ok sent=- res=fail")
         | none => return ((), "ok sent=- res=fail")
     | _, _, _, _ => return ((), "bad-op")
+  | ["cli.ntsdesth", tr, hist, reach] =>
+    -- destination of the LAST of a history of calls on one client / one address object
+    match kv? [tr] "tr", kv? [hist] "hist", (kv? [reach] "reach").bind parseBool? with
+    | some tr, some hist, some reach =>
+      if tr ≠ "ip" ∧ tr ≠ "scion" ∧ tr ≠ "scion-local" then return ((), "bad-op")
+      let one (s : String) : Option KxDest :=
+        match s.splitOn ":" with
+        | [parsed, port] =>
+          match port.toNat? with
+          | some port =>
+            if port ≥ 65536 then none
+            else if parsed = "-" then some ⟨"", none, port⟩
+            else if parsed.startsWith "x" then
+              match parseHex? (parsed.drop 1).toString with
+              | some b => if b.length = 16 then some ⟨"", some b, port⟩ else none
+              | none => none
+            else none
+          | none => none
+        | _ => none
+      match (hist.splitOn ";").mapM one with
+      | none => return ((), "bad-op")
+      | some [] => return ((), "bad-op")
+      | some kxs =>
+        match (destHistory ([], 0) kxs).getLast? with
+        | some (some (ip, p)) =>
+          if reach then return ((), s!"ok sent=x{toHex ip}:{p} res=fail") else return ((), "ok sent=- res=fail")
+        | _ => return ((), "ok sent=- res=fail")
+    | _, _, _ => return ((), "bad-op")
   | ["cli.badlocal", tr, iplen] =>
     match (kv? [tr] "tr").bind parseTr?, (kv? [iplen] "iplen").bind (·.toNat?) with
     | some _, some n =>
